@@ -173,6 +173,14 @@ class AArr(object):
     def __matmul__(self, o):
         return self._matmul(o)
 
+    def sym_invert(self, itp):
+        if self.kind != 'bool':
+            raise CheckerError('~ on a non-boolean array')
+        n = 1
+        for d in self.shape:
+            n = n * d
+        return AArr(self.shape, ('not', self.term), 'bool', count=n - self.count)
+
     def sym_compare(self, itp, op, other):
         cnt = fresh_int('cnt', 0, None, itp)
         n = 1
@@ -327,6 +335,16 @@ def install(itp):
     np_.isinf = lambda x: x if isinstance(x, AArr) else False
     old_asc = np_.ascontiguousarray
     np_.ascontiguousarray = lambda x, dtype=None: x if isinstance(x, AArr) else old_asc(x, dtype)
+    def isclose(x, y, **kw):
+        if isinstance(x, AArr):
+            cnt = fresh_int('cnt', 0, None, itp)
+            n = 1
+            for d in x.shape:
+                n = n * d
+            itp.path.conds.append(compare('<=', cnt, n))
+            return AArr(x.shape, ('isclose', x.term, T(y)), 'bool', count=cnt)
+        raise CheckerError('numpy.isclose on scalars needs a contract')
+    np_.isclose = isclose
     np_.unique = lambda x: AArr((fresh_int('nuniq', 0, None, itp),), ('unique', x.term), x.kind)
     old_abs = np_.abs
     np_.abs = lambda x: AArr(x.shape, ('abs', x.term), 'float') if isinstance(x, AArr) else old_abs(x)
